@@ -219,5 +219,6 @@ int main(int argc, char **argv)
     run_app<sapp::Preset>(T ? 5 : 4, T ? 2 : 1, L);
     run_app<sapp::Tree>(T ? 5 : 4, T ? 2 : 1, L);
     run_app<sapp::Synth>(T ? 7 : 6, 0, L);
+    run_app<sapp::IntSw>(T ? 5 : 4, 0, L);
     return vp::finish();
 }
